@@ -33,9 +33,11 @@ type dbIter struct {
 	forward    bool
 	key, value []byte
 	err        error
+	gen        int // generation of the DB that node belongs to
 }
 
 func (i *dbIter) fill(checkStart, checkLimit bool) bool {
+	i.gen = i.p.gen
 	if i.node != 0 {
 		n := i.p.nodeData[i.node]
 		m := n + i.p.nodeData[i.node+nKey]
@@ -127,7 +129,12 @@ func (i *dbIter) Next() bool {
 	i.forward = true
 	i.p.mu.RLock()
 	defer i.p.mu.RUnlock()
-	i.node = i.p.nodeData[i.node+nNext]
+	if i.gen != i.p.gen {
+		// The DB has been reset since the last movement, the node is gone.
+		i.node = 0
+	} else {
+		i.node = i.p.nodeData[i.node+nNext]
+	}
 	return i.fill(false, true)
 }
 
@@ -196,6 +203,7 @@ type DB struct {
 	maxHeight int
 	n         int
 	kvSize    int
+	gen       int // incremented by Reset, node indexes do not survive it
 }
 
 func (p *DB) randHeight() (h int) {
@@ -441,6 +449,7 @@ func (p *DB) Len() int {
 // Reset resets the DB to initial empty state. Allows reuse the buffer.
 func (p *DB) Reset() {
 	p.mu.Lock()
+	p.gen++
 	p.rnd = rand.New(rand.NewSource(0xdeadbeef))
 	p.maxHeight = 1
 	p.n = 0
